@@ -4,5 +4,5 @@
 cd /verif && . ./env.sh
 p="$(realpath "$1")"; shift
 ids="${*:-all}"
-./bin/dvcheck check --patch "$p" $ids 2>&1 | grep -E "^VIOLATION|^  (violated|undecided)|^patch:" | cut -c1-300
+${DVCHECK:-./bin/dvcheck} check --patch "$p" $ids 2>&1 | grep -E "^VIOLATION|^  (violated|undecided)|^patch:" | cut -c1-300
 exit ${PIPESTATUS[0]}
